@@ -6,6 +6,7 @@ Answer:   `model=<ok | reject@i:<event>:<pc>>[ mon=<failed monitor>…] holds=<0
 `holds` is the conjunction of the property monitors below, which are evaluated on the raw event list only
 (counting Start/exit events, member ids, back-off markers) — they do not use the model.
 -/
+import KafkaVerif.Model.GroupDeadlines
 import KafkaVerif.Base.Proto
 import KafkaVerif.Model.GroupRun
 import Oracle.GroupWireOps
@@ -252,6 +253,26 @@ def answer (line : String) : String :=
       if bad.isEmpty && el > 0 then s!"model={_impl} holds=1"
       else s!"model=options-not-passed-through:{",".intercalate bad} holds=0"
     | ["wirereq", method, desc] => KV.OracleGW.opWireReq method desc _impl
+    | "deadlines" :: cfg =>
+      -- the library's own connection path against a wire-level coordinator that holds answers (go/cmd/c15/deadlines.go)
+      let kv (l : List String) (k : String) : Option Nat :=
+        ((l.find? (fun x => x.startsWith (k ++ "="))).map (fun x => (x.drop (k.length + 1)).toString)).bind (·.toNat?)
+      match kv cfg "timeout", kv cfg "rebalance", kv cfg "session", kv cfg "joinheld", kv cfg "syncheld" with
+      | some to, some rb, some se, some jh, some sh =>
+        let t : KV.Group.Timeouts := ⟨to, rb, se⟩
+        let near (h d : Nat) : Bool := decide (h + 30 > d ∧ h < d + 30)   -- too close to the deadline to call
+        if near jh (KV.Group.callDeadline t .joinGroup) || near sh (KV.Group.callDeadline t .syncGroup) then "bad-op"
+        else
+          let (j, s) := KV.Group.requestsForFirstGeneration t jh sh
+          let obs := words _impl
+          let hb := ((obs.find? (fun x => x.startsWith "hbend=")).map (fun x => (x.drop 6).toString)).bind (·.toInt?)
+          let hbTxt := match hb with
+            | some h => if decide ((to : Int) ≤ h + 3 ∧ h ≤ (to : Int) + 150) then toString h
+                        else s!"{h}(expected-{to}..{to + 150})"
+            | none => "?"
+          let m := s!"joins={j} syncs={s} gen=ok hbend={hbTxt} leave=m1"
+          s!"model={m} holds={if m == _impl then 1 else 0}"
+      | _, _, _, _, _ => "bad-op"
     | ["defaults"] =>
       let m := KV.Group.expectedDefaultsObservation
       s!"model={m} holds={if m == _impl then 1 else 0}"
